@@ -7,7 +7,7 @@
    parsed on every run of the check); key-set invariance is checked by the
    correspondence run with a plain-name twin. *)
 From Coq Require Import String.
-From GS Require Import GoSem Text Float64 Human Output OutputProofs.
+From GS Require Import GoSem Text Float64 Human Output OutputProofs TableProofs.
 
 Theorem C19_footnotes : forall texts f,
   let '(f', cs) := cite_all f texts in
@@ -19,4 +19,27 @@ Print Assumptions C19_footnotes.
 Example C19_example :
   cite_all (mk_fn []) [str "a"; []; str "b"; str "a"] =
   (mk_fn [str "a"; str "b"], [str "[1]"; []; str "[2]"; str "[1]"]).
+Proof. vm_compute. reflexivity. Qed.
+
+(* ---- the footnotes of a whole table (TableProofs.v) ---- *)
+
+(* whatever bytes the names contain: after emitting any contents (sections nested to any depth, refgroup rows included), the
+   footnote list is the list of distinct non-empty footnote texts of the rows SHOWN, in order of first appearance *)
+Theorem C19_table_footnotes : forall c t indent f,
+  fn_list (snd (emit c t indent f)) = firsts (fn_list f) (map it_footnote (shown c t)).
+Proof. exact emit_footnotes. Qed.
+Print Assumptions C19_table_footnotes.
+
+(* "every citation refers to exactly one footnote, every footnote is cited": a text is a footnote under the table iff it is
+   the non-empty footnote text of a row that is shown *)
+Theorem C19_table_footnote_iff : forall c t x,
+  In x (fn_list (snd (emit c t (-1) (mk_fn [])))) <-> (exists i, In i (shown c t) /\ it_footnote i = x) /\ x <> [].
+Proof. exact table_footnote_iff. Qed.
+Print Assumptions C19_table_footnote_iff.
+
+(* non-vacuity: two rows citing the same object share footnote [1], a hidden row contributes nothing *)
+Example C19_table_example :
+  let it v fn := TItem (mk_item (str "s") (str "n") v false Metric [] (f64_of_Z 10) fn) in
+  let c := TSec (str "S") [it 50 (str "x y"); TSec (str "T") [it 1 (str "hidden"); it 70 (str "q""z"); it 90 (str "x y")]] in
+  fn_list (snd (emit c (mk_thr 1 1) (-1) (mk_fn []))) = [str "x y"; str "q""z"].
 Proof. vm_compute. reflexivity. Qed.
